@@ -215,6 +215,8 @@ def main(ctx: Ctx):
         hists = [h for n in range(1, L + 1) for h in itertools.product(symbols, repeat=n) if any(x != "r" for x in h)]
         if quick:
             hists = rng.sample(hists, 16) + [("r", 0), ("r", "r", 1, 0)]      # reset() before any call is legal too
+        # TWO resets with calls in between and after (the second reset must be as complete as the first)
+        hists += [(0, "r", 1, "r", 0, 1), ("r", 0, 1, "r", 1, 0, 2), (0, 1, 2, "r", 2, "r", "r", 1, 0)]
         for k in ((1, 2, 3) if quick else (1, 2, 3, 4)):
             for h in hists:
                 mx = rng.choice([1.0, 1.0, 0.3, 5.0])
@@ -225,6 +227,19 @@ def main(ctx: Ctx):
                     break
     for _ in range(6 if quick else 150):
         mixed_precision_window(ctx)
+    # SMALL gradients (entries ~1e-3): the solver may use up its iterations without meeting its stopping criteria — the schedule
+    # is the schedule all the same (recomputation on calls 0, k, 2k, ... only)
+    for m in (2, 3):
+        for rep_ in range(2 if quick else 6):
+            mats = [M * 1e-3 for M in alphabet(rng, m)]
+            hists = [h for n in range(2, L + 1) for h in itertools.product(symbols, repeat=n) if h[0] != "r"]
+            for k in (2, 3):
+                for h in rng.sample(hists, 6 if quick else 40):
+                    ok = run_history(ctx, mats, m, k, h, rng.choice([1.0, 0.0]))
+                    ctx.case(("small-scale", m, k, h, rep_), nontrivial=True)
+                    ctx.count("small_scale_histories")
+                    if not ok:
+                        break
     # alphabets with PROPORTIONAL matrices (J, cJ): same normalised Gramian, different bargaining solution (alpha / c)
     for m in (2, 3):
         for rep_ in range(2 if quick else 6):
